@@ -94,6 +94,49 @@ def _mk_classes():
             self.a = a
             self._yatiml_extra = _yatiml_extra if _yatiml_extra is not None else collections.OrderedDict()
     ns['SX'] = [Ex, Col]
+
+    class Pc:
+        """a class with a short scalar form: the sweeten replaces the node"""
+        def __init__(self, digits: int, letters: str) -> None:
+            self.digits = digits
+            self.letters = letters
+
+        @classmethod
+        def _yatiml_recognize(cls, node: yatiml.UnknownNode) -> None:
+            pass
+
+        @classmethod
+        def _yatiml_savorize(cls, node: yatiml.Node) -> None:
+            if node.is_scalar(str):
+                t = node.get_value()
+                node.make_mapping()
+                node.set_attribute('digits', int(t[:4]))
+                node.set_attribute('letters', t[5:])
+
+        @classmethod
+        def _yatiml_sweeten(cls, node: yatiml.Node) -> None:
+            node.set_value('%d %s' % (node.get_attribute('digits').get_value(), node.get_attribute('letters').get_value()))
+    ns['SP'] = [Pc]
+
+    class Cfg:
+        """default-value sweetening with an override table that a derived class inherits"""
+        def __init__(self, names: Optional[List[str]] = None, level: int = 1) -> None:
+            self.names = names if names is not None else []
+            self.level = level
+        _yatiml_defaults = {'names': []}      # type: Dict[str, Any]
+
+        @classmethod
+        def _yatiml_sweeten(cls, node: yatiml.Node) -> None:
+            node.remove_attributes_with_default_values(cls)
+
+    class VCfg(Cfg):
+        def __init__(self, names: Optional[List[str]] = None, level: int = 3) -> None:
+            super().__init__(names, level)
+
+        @classmethod
+        def _yatiml_sweeten(cls, node: yatiml.Node) -> None:
+            node.remove_attributes_with_default_values(cls)
+    ns['S4'] = [Cfg, VCfg]
     for k, v in ns.items():
         for c in v:
             c._fp_open = True          # let the fingerprint look inside the user's classes
@@ -102,7 +145,11 @@ def _mk_classes():
 
 
 SETS = _mk_classes()
-ROOT = {'S1': SETS['S1'][0], 'S2': SETS['S2'][0], 'S3': SETS['S3'][0], 'SX': SETS['SX'][0]}
+ROOT = {'S1': SETS['S1'][0], 'S2': SETS['S2'][0], 'S3': SETS['S3'][0], 'SX': SETS['SX'][0], 'SP': SETS['SP'][0],
+        'S4': SETS['S4'][0]}
+# dump functions: name -> classes registered
+DUMPERS = collections.OrderedDict([('S1', SETS['S1']), ('S2', SETS['S2']), ('S3', SETS['S3']), ('S4a', SETS['S4'][:1]),
+                                   ('S4b', SETS['S4'])])
 DOCS = collections.OrderedDict([
     ('v1', '{x: 1}'), ('v2', '{x: a}'), ('tA', '!A {x: 1}'), ('tB', '!B {x: 1, z: 2}'), ('bad', '{q: 1}'), ('err', '{x: 1'),
     ('l1', '[{x: 1}]'), ('d1', '{k: 1}'),
@@ -126,6 +173,12 @@ def value(name):
         return SETS['S3'][0](3)
     if name == 'b3':
         return SETS['S3'][1](1, 2)
+    if name == 'cfg3':
+        return SETS['S4'][0](['a'], 3)
+    if name == 'cfg1':
+        return SETS['S4'][0]([], 1)
+    if name == 'vcfg1':
+        return SETS['S4'][1](['a'], 1)
     if name == 'dup3':
         # one object referenced twice: fine for YAML (anchor), refused midway by the JSON emitter (RuntimeError)
         o = SETS['S3'][1](1, 2)
@@ -133,12 +186,13 @@ def value(name):
     raise KeyError(name)
 
 
-VALUES = {'S1': ['a1', 'a2'], 'S2': ['a2', 'a1'], 'S3': ['a3', 'b3', 'a1', 'dup3']}
+VALUES = {'S1': ['a1', 'a2'], 'S2': ['a2', 'a1'], 'S3': ['a3', 'b3', 'a1', 'dup3'], 'S4a': ['cfg3', 'cfg1'],
+          'S4b': ['vcfg1', 'cfg3']}
 
-MK_OPS = [('mkL', s) for s in LOADERS] + [('mkD', s) for s in ('S1', 'S2', 'S3')] + \
+MK_OPS = [('mkL', s) for s in LOADERS] + [('mkD', s) for s in DUMPERS] + \
          [('mkJ', s) for s in ('S1', 'S2', 'S3')]
 CALL_OPS = [('L', s, d) for s in LOADERS for d in LOADER_DOCS[s]] + \
-           [(k, s, v) for k in ('D', 'J') for s in ('S1', 'S2', 'S3') for v in VALUES[s]]
+           [('D', s, v) for s in DUMPERS for v in VALUES[s]] + [('J', s, v) for s in ('S1', 'S2', 'S3') for v in VALUES[s]]
 ALL_OPS = MK_OPS + CALL_OPS
 
 
@@ -188,7 +242,7 @@ def apply_op(slots, op):
             slots[('L', s)] = yatiml.load_function(ROOT[s], *SETS[s][1:])
         return 'created'
     if k == 'mkD':
-        slots[('D', op[1])] = yatiml.dumps_function(*SETS[op[1]])
+        slots[('D', op[1])] = yatiml.dumps_function(*DUMPERS[op[1]])
         return 'created'
     if k == 'mkJ':
         slots[('J', op[1])] = yatiml.dumps_json_function(*SETS[op[1]])
@@ -234,7 +288,9 @@ def class_snapshot():
     out = []
     for s in sorted(SETS):
         for c in SETS[s]:
-            out.append((s, c.__name__, sorted((k, type(v).__name__) for k, v in vars(c).items()),
+            out.append((s, c.__name__, sorted((k, type(v).__name__, repr(v) if isinstance(v, (dict, list, tuple, set, str, int,
+                                                                                                  float, bool, type(None))) else '')
+                                              for k, v in vars(c).items()),
                         [b.__name__ for b in c.__bases__], sorted(c.__subclasses__(), key=lambda x: x.__name__).__len__()))
     return out
 
@@ -370,15 +426,20 @@ def _setup_program_(name):
         return [lambda: la('{x: 1}'), lambda: L(s2[0])('{x: a}')]
     if name == 'same-dumps-twice':
         ds = yatiml.dumps_function(*s3)
-        o = s3[1](1, 2)
-        return [lambda: ds([o, o]), lambda: ds({'k': o})]
+        o, o2 = s3[1](1, 2), s3[1](3, 4)      # two different objects of one class: a mix-up must be visible
+        return [lambda: ds([o, o]), lambda: ds({'k': o2, 'l': [o2]})]
     if name == 'dumps-vs-dumps-json':
         ds, dj = yatiml.dumps_function(*s3), yatiml.dumps_json_function(*s3)
-        o = s3[1](1, 2)
-        return [lambda: ds([o]), lambda: dj({'k': [o, {'n': None}]}, indent=2)]
+        o, o2 = s3[1](1, 2), s3[1](3, 4)
+        return [lambda: ds([o]), lambda: dj({'k': [o2, {'n': None}]}, indent=2)]
     if name == 'same-dumps-json-twice':
         dj = yatiml.dumps_json_function(*s3)
-        return [lambda: dj({'k': [s3[1](1, 2), {'n': None}]}, indent=2), lambda: dj([[1, 'a'], {'b': s3[0](5)}])]
+        return [lambda: dj({'k': [s3[1](1, 2), {'n': None}]}, indent=2), lambda: dj([[1, 'a'], {'b': s3[1](5, 6)}])]
+    if name == 'same-dumps-sweetened':
+        sp = SETS['SP']
+        ds = yatiml.dumps_function(*sp)
+        p, q = sp[0](1098, 'XG'), sp[0](2000, 'AB')
+        return [lambda: ds([p, p, {'k': p}]), lambda: ds([q])]
     if name == 'dumps-vs-load':
         ds, la = yatiml.dumps_function(*s1), L(s1[0])
         return [lambda: ds(s1[0](1, 'yes')), lambda: la('{x: 1, y: b}')]
@@ -396,13 +457,13 @@ def _setup_program_(name):
     raise KeyError(name)
 
 
-PROGRAMS = ['same-load-2-valid', 'same-load-valid-invalid', 'same-named-classes', 'creation-vs-call', 'same-dumps-twice',
+PROGRAMS = ['same-dumps-sweetened', 'same-load-2-valid', 'same-load-valid-invalid', 'same-named-classes', 'creation-vs-call', 'same-dumps-twice',
             'dumps-vs-dumps-json', 'same-dumps-json-twice', 'dumps-vs-load', 'two-creations', 'same-load-extras-any',
             'hierarchy-and-tags', 'load-vs-safe-load']
 
 
 PROGRAMS = PROGRAMS + [p + '~' for p in PROGRAMS]
-QUICK_LINE_PROGRAMS = ['same-load-2-valid', 'same-dumps-json-twice', 'dumps-vs-dumps-json', 'dumps-vs-dumps-json~',
+QUICK_LINE_PROGRAMS = ['same-dumps-sweetened', 'same-load-2-valid', 'same-dumps-json-twice', 'dumps-vs-dumps-json', 'dumps-vs-dumps-json~',
                        'same-load-valid-invalid', 'same-load-valid-invalid~']
 
 
